@@ -21,6 +21,14 @@ CHECKS = {
          "Generated parameter sets built adjacent to every documented limit (and with ceil(F/T) beyond 2^32) are judged by a u128 reference predicate; accept/refuse must agree both ways and accepted values must be echoed. Found and drove the repair of an acceptance beyond the limit.",
          "Sampled search (2e6 quick / 2e8 thorough); domain restricted to positive T, Z, Al as the property states.",
          "DESIGN.md 5/C19"),
+ "C04": ("proptest differential vs. independent RFC 6330 reference encoder (plain GF(256) elimination); certificate checking for large K; table digests",
+         "Generated (K, T, data, construction, ESIs): source packets, intermediate symbols and repair payloads are compared byte for byte with a reference written from the RFC that shares no code with the crate (direct solve up to K'=300 quick / 1500 thorough); for any K up to 56403 the crate's intermediate symbols are certified against all L constraint rows and repair payloads recomputed with the reference Tuple/Enc; V0..V3/Table 2 pinned by SHA-256, Deg checked on all 2^20 inputs.",
+         "V0..V3 and Table 2 are trusted as of the pinned commit (no second source offline). Sampled over data/T/ESIs.",
+         "DESIGN.md 5/C04"),
+ "C06": ("exhaustive enumeration over the 477 K' x back-end x mode, oracle = reference constraint rows",
+         "Every K' (and K'-1) is built by direct solve and by plan replay on the sparse back-end (all K') and dense back-end (K' <= 6000 quick, all thorough); every set of intermediate symbols is checked against all LDPC/HDPC/LT relations evaluated by the reference; direct == replay, dense == sparse, production plan == direct.",
+         "Exhaustive in K' only; data sampled (linearity is C09). Constraint rows come from the reference model (trusted tables).",
+         "DESIGN.md 5/C06"),
  "C10": ("exhaustive enumeration vs. polynomial reference",
          "Exhaustive: all 256^2 pairs and 256^3 triples of the octet operators and all derived tables are compared with carry-less multiplication modulo 0x11D; the finite domain is covered completely, so this is as strong as testing gets for this property.",
          "Trusts the 20-line shift-and-reduce reference multiplier (unit-tested: generator order, inverses).",
